@@ -164,7 +164,23 @@ func (ex *Exec) checkAsserts(fr *Frame, st *State, key string, names []string, p
 			continue
 		}
 		if strings.HasPrefix(cl.Names[0], "flag:") {
-			if !ex.calleeHasFlag(key, strings.TrimPrefix(cl.Names[0], "flag:"), names) {
+			fl := strings.TrimPrefix(cl.Names[0], "flag:")
+			if strings.HasPrefix(fl, "has-param:") {
+				// has-param:<name>: a /repo callee with a []string parameter of that name
+				// has-param:<name>|<type> (type defaults to []string)
+				want, wantT, ok := strings.TrimPrefix(fl, "has-param:"), "[]string", false
+				if k := strings.Index(want, "|"); k >= 0 {
+					want, wantT = want[:k], want[k+1:]
+				}
+				for i, n := range names {
+					if n == want && i < len(ptypes) && ptypes[i] != nil && ptypes[i].String() == wantT && strings.Contains(key, "github.com/ARM-software/golang-utils") {
+						ok = true
+					}
+				}
+				if !ok {
+					continue
+				}
+			} else if !ex.calleeHasFlag(key, fl, names) {
 				continue
 			}
 		} else if !strings.Contains(key, cl.Names[0]) && !strings.HasSuffix(bareKey(key), cl.Names[0]) {
